@@ -17,6 +17,7 @@ from hypothesis import strategies as st
 
 from vf import core, tool
 from vf.core import Stats, Violation, digest
+from vf.gen import images as gi
 
 ID = "C12"
 RULE = (
@@ -167,6 +168,14 @@ FIXTURES = [
 ]
 
 
+def decode_generated_image(spec, tmpdir):
+    from vf.img import model, run
+
+    b = model.build(spec)
+    r = run.run_decoder(spec["fmt"], b.data, b.argv, tmpdir=tmpdir)
+    return r.status + ":" + hashlib.sha1(r.out or b"").hexdigest()
+
+
 def decode_fixture(k, tmpdir):
     import importlib
 
@@ -234,6 +243,9 @@ def check_case(case):
                     _, src, opts = step
                     key = digest(["conv", src, opts])
                     val = conv_digest(src, opts)
+                elif step[0] == "decode_image":
+                    key = "img" + digest(step[1])
+                    val = decode_generated_image(step[1], d)
                 else:
                     key = "fx%d" % step[1]
                     val = decode_fixture(step[1], d)
@@ -360,9 +372,19 @@ def campaign_history(seed, n, steps, switches=frozenset()):
         def decode(self, k):
             self._record("fx%d" % k, decode_fixture(k, self.tmpdir), ["decode", k])
 
+        @rule(spec=st.one_of(gi.hrs_spec(options=True, even_width=True), gi.max_spec(options=True), gi.pix_spec()))
+        def decode_generated(self, spec):
+            self._record("img" + digest(spec), decode_generated_image(spec, self.tmpdir), ["decode_image", spec])
+
+        @precondition(lambda self: any(s[0] == "decode_image" for s in self.steps))
+        @rule(data=st.data())
+        def decode_generated_again(self, data):
+            s = data.draw(st.sampled_from([s for s in self.steps if s[0] == "decode_image"]))
+            self._record("img" + digest(s[1]), decode_generated_image(s[1], self.tmpdir), s)
+
         def teardown(self):
             stats.case(key=self.steps, nontrivial=self.nontrivial, classes=["history_with_interleaved_repeat"] if self.nontrivial else ["history"],
-                       sample={"history": [s if s[0] == "decode" else ["conv", s[1][:60] + "...", s[2]] for s in self.steps[:8]]})
+                       sample={"history": [s if s[0] != "conv" else ["conv", s[1][:60] + "...", s[2]] for s in self.steps[:8]]})
             self.tmp.__exit__(None, None, None)
 
     sett = settings(
